@@ -548,6 +548,9 @@ func (V *Verifier) checkExit(fc *FuncCtx, s *State, vals []Val, fi *FuncInfo, is
 		}
 	}
 	s.runAnchor("end", endPos)
+	if fct.NoAlloc {
+		s.oblige("post", "noalloc", sEq(s.alloc, fc.entryAlloc()), endPos)
+	}
 	for i, e := range fct.Ensures {
 		env := fc.newSpecEnv(s, names, fc.entrySnap, fi.Decl.Body.Lbrace+1, fc.Name+"/ensures")
 		s.oblige("post", fmt.Sprintf("ensures%d", i+1), env.evalBool(e.Expr), endPos)
